@@ -364,7 +364,51 @@ claim("C11", "other",
       "Lean 4 proof over hand-written models + real-code unit correspondence + ASan/UBSan implementation oracle on a fixed matrix",
       "lean-correspondence")
 
+claim("C09", "proof",
+      "The row-wavefront protocol of tile reconstruction / loop filter / CDEF / loop restoration in the decoder is modelled at scheduling-point granularity "
+      "(Model/DecWavefront.lean). For all sizes W,H >= 1, any number of workers and every interleaving: the spin tests really wait for the upper-right neighbour "
+      "(pass_sound, for all four stages and every width since the CDEF repair c7d082d; pass_live), when an SB starts its whole wavefront cone has finished "
+      "(decwf_safe_cone, decwf_safe), every SB is processed exactly once in a cone-respecting order (decwf_once, decwf_order), no deadlock relative to the row gates "
+      "and termination within H(2W+6)+2n steps (decwf_deadlock_free, decwf_measure, decwf_terminates, decwf_complete), the row-map implications between stages "
+      "(stage_order_lf/_cdef/_lr, rows_below_complete), and dag_confluence => equality with the single-thread result under the NAMED hypothesis H-footprint "
+      "(decwf_eq_single_thread). cdef_before_lf_save_race exhibits, in the model, the gap behind the recorded loop-restoration findings. Ties: the extracted real "
+      "decode_tile / decode_tile_row / decode_frame_tiles text runs under an adversarial coroutine scheduler and every schedule is replayed through the model "
+      "(0 disagreements); the real decoder is compared across threads {1,2,3,4,8,16} x perturbation seeds against its single-thread output.",
+      AX + "; hand transcription (recon tied by extracted-code replay; LF/CDEF/LR by verbatim fragments); sequentially consistent memory - the volatile spin-waits are "
+      "C11 data races, not decidable here; thread hand-over between stages and frame-level deadlock freedom (frame_deadlock_free_partial) are exercised, not fully "
+      "proved; equality with single-thread is conditional on H-footprint; the double free at teardown and the missing CDEF row wait for 1-SB-wide pictures are repaired "
+      "in /repo; two recorded findings in multi-threaded loop restoration (fix patches proposed in hooks/, not applied): until they land the MT LR stage is exercised "
+      "only by labelled probes.",
+      "Lean 4 proof (all sizes, all interleavings) over a hand-written model + replay of extracted real control code under an adversarial scheduler + real-decoder thread/schedule differential",
+      "lean-correspondence")
+
+claim("C01", "other",
+      "The frame-level protocol is proved for all streams (Props/C01.lean): recon_eq_decode - the decoder-side and encoder-side DPB machines produce equal outputs "
+      "at every position and equal final DPBs, by induction, under the NAMED hypotheses H-recon (per-frame reconstruction functions agree), H-syntax (headers parse to "
+      "what was written) and H-key; dec_output_order / dec_output_positions / output_is_a_reconstruction (what licenses matching by display position), "
+      "dpb_refresh_spec, show_existing_key_refreshes_all. The property's oracle: real encodes (47 quick / 157 thorough configurations drawn from the accepted domain: "
+      "presets, bit depth, tiles, rate control, film grain, GOP structures, sizes incl. 64-wide/portrait/non-multiples of 8) are decoded by the real SVT decoder and "
+      "compared byte for byte with the encoder's recon by display position; the Lean header parser + DPB machine are checked against the real decoder's output list, "
+      "pts and order hints.",
+      AX + "; H-recon and H-syntax (megabytes of pixel code) are exercised on sampled inputs only, never proved; no third-party AV1 decoder exists in the sandbox: "
+      "'independent decoder' = SVT's own decoder + the Lean header/DPB model; 2-pass not covered; 11 recorded finding families (overlays, super-resolution, 16-bit "
+      "pipeline with 8-bit input, segmentation at low qp, film grain at low thread counts, several hangs/crashes of specific configuration families); the random part of "
+      "the matrix stays outside those families (asserted).",
+      "Lean 4 proof of the frame-level protocol + real encoder/decoder differential by display position",
+      "lean-correspondence")
+
+claim("C08", "other",
+      "Proved on the DPB model: pipelines_agree (decoder configuration can only act through the per-frame reconstruction function), dec_output_count / "
+      "dec_output_order / dpb_refresh_spec / shown_key_refreshes_all / show_existing_key_refreshes_all / output_is_a_reconstruction, and the film-grain random-seed "
+      "update rule never yields 0 (film_grain_seed_never_zero, for every n). On real streams the real decoder is compared with the encoder's recon, the 16-bit with the "
+      "8-bit pipeline, 4 threads with 1, film grain applied with skipped (a picture changes iff its header has apply_grain), and its output list with the Lean DPB model.",
+      AX + "; there is NO reference decoder in the sandbox: sample-level correctness against other AV1 decoders is not decided at all - only consistency with SVT's own "
+      "encoder and between the decoder's own pipelines/thread counts; only SVT-produced streams; the film-grain seed rule is tied by a source-text check only; recorded "
+      "findings (the multi-threading ones belong to C09).",
+      "Lean 4 proof over the DPB model + real-decoder self-consistency differential (pipelines, threads, grain) and against encoder recon",
+      "lean-correspondence")
+
 _PENDING = ("check under construction (model planned in DESIGN.md section 5); not claimed until its theorem and correspondence run exist "
             "and pass on the unchanged tree")
-for _p in ["C01", "C08", "C09"]:
+for _p in []:
     NOT_CLAIMED[_p] = _PENDING
